@@ -1,4 +1,4 @@
-from vlib import Obl
+from vlib import Obl, PORTFOLIO
 
 TITLE = 'Statistics accumulators are consistent under add, compute and combine'
 LEVEL_TEXT = ('bounded symbolic verification of the real statistics.c: count/min/max exact for arbitrary finite doubles/floats and every split; '
@@ -15,7 +15,7 @@ EXPLANATION = ('KMM: N symbolic samples (arbitrary finite values), symbolic coun
 
 def obligations(tier):
     o = []
-    pf = [None, 'cadical', 'kissat']
+    pf = PORTFOLIO
     n_k = 4 if tier == 'quick' else 6
     n_g = 3 if tier == 'quick' else 5
     to = 600 if tier == 'quick' else 2400
@@ -29,10 +29,15 @@ def obligations(tier):
                  ladder=[('N<=%d' % n_k, ['NMAX=%d' % n_k], None, None), ('N<=3', ['NMAX=3'], None, None)],
                  desc='count/min/max identical on the five f64 routes, samples arbitrary finite doubles', bound='N per rung; one split point',
                  assumes=['samples are finite (no NaN/Inf), as in the property statement']))
-    o.append(Obl('GRID_int8', 'c20_stats.c', units=['statistics.c'], defines=['MODE_GRID=1'], unwind=9, timeout=to, backend=pf,
+    for route in ('ADD', 'COMBINE', 'F32'):
+        o.append(Obl('GRID_%s' % route, 'c20_stats.c', units=['statistics.c'], defines=['MODE_GRID=1', 'G_%s=1' % route], unwind=9, timeout=to, backend=pf,
+                     ladder=[('N<=%d' % n_g, ['NMAX=%d' % n_g], None, None), ('N<=2', ['NMAX=2'], None, None)],
+                     desc='compute_f64 vs %s: s>=0, var>=0, min<=mean<=max, min/max exact, mean/s agree within tolerance; samples = all int8 values' % route,
+                     bound='N per rung; one split point; value grid int8'))
+    o.append(Obl('GRID_ALIAS', 'c20_stats.c', units=['statistics.c'], defines=['MODE_GRID=1', 'G_ALIAS=1', 'TINY_GRID=1'], unwind=9, timeout=to, backend=pf,
                  ladder=[('N<=%d' % n_g, ['NMAX=%d' % n_g], None, None), ('N<=2', ['NMAX=2'], None, None)],
-                 desc='s>=0, var>=0, min<=mean<=max, mean/s agreement within tolerance, aliasing bit-identity; samples = all int8 values',
-                 bound='N per rung; one split point; value grid int8'))
+                 desc='combine(tgt==a) and combine(tgt==b) bit-identical to combine(fresh); samples on the 8-value grid {-5,-2,-1,0,1,2,3,7}',
+                 bound='N per rung; one split point; 8-value grid (a full-domain FP miter does not return)'))
     o.append(Obl('EMPTY_identity', 'c20_stats.c', units=['statistics.c'], defines=['MODE_EMPTY=1'], unwind=4, timeout=300,
                  desc='combine with an empty accumulator is the bitwise identity (all aliasing configurations), arbitrary operand bits',
                  bound='all 2^320 operand contents with k>=1'))
